@@ -207,6 +207,26 @@ def run(ctx):
             # O1 with the wrong oracle (gate g's relation negated) must be refutable, i.e. SAT
             ctx.twin("twin-wrong-gate", [CNF, z3.Not(wrong)])
         solve_api(ctx, cgsat, net, V, R, rng, cid, mk)
+        # history on ONE object: encode, change a gate type in place (same names and wiring), encode again
+        flip = {"and": "or", "or": "and", "nand": "nor", "nor": "nand", "xor": "xnor", "xnor": "xor", "buf": "not", "not": "buf"}
+        victims = [n for n in nodes if net.types[n] in flip and net.preds[n]]
+        if victims and len(nodes) <= 40:
+            c_h = mk()
+            call(cgsat.cnf, c_h)
+            v_ = victims[len(victims) // 2]
+            c_h.set_type(v_, flip[net.types[v_]])
+            net2 = Net.of(c_h)
+            res2, err2 = call(cgsat.cnf, c_h)
+            if err2 is None:
+                V2 = sem.boolvars("n!", net2.nodes())
+                CNF2, X2 = cnf_terms(res2[0], res2[1], V2)
+                R2 = sem.rel(net2, V2)
+
+                def replay_hist(m, net2=net2, V2=V2):
+                    val = sim.model_bits(m, V2)
+                    return {"reproduced": not sim.consistent(net2, val), "sig": "cnf:stale-after-in-place-edit", "what": "cnf() of a circuit that was edited in place after an earlier cnf() call admits a valuation inconsistent with the edited circuit",
+                            "detail": {"case": cid, "edited_node": v_, "valuation": val}}
+                ctx.prove("O1-sound-after-edit", [CNF2, z3.Not(R2)], replay_hist)
 
 
 def classify_incomplete(net):
